@@ -28,6 +28,10 @@ func AllRules() map[string]*Rule {
 		ruleInstallSnapshot(),
 		ruleSnapLabel(),
 		ruleSender(),
+		ruleApplyOrder(),
+		ruleFutIndex(),
+		ruleLeaderExit(),
+		ruleFutResolve(),
 	)
 	all = append(all, extraRules()...)
 	for _, r := range all {
